@@ -249,7 +249,10 @@ func resolved(v avfs.VFS, p string, last bool) string {
 }
 
 // step performs one call and asserts I1-I5.
-func step(v avfs.VFS, kind int, c call) {
+func step(v avfs.VFS, kind int, c call) { stepErr(v, kind, c) }
+
+// stepErr is step returning whether the call succeeded.
+func stepErr(v avfs.VFS, kind int, c call) bool {
 	label := hx.KindName(kind) + "|" + c.op + "|" + sysx.Kind(sysx.ImplSys{V: v}, c.p)
 	if twoPath(c.op) {
 		label += "," + sysx.Kind(sysx.ImplSys{V: v}, c.q)
@@ -292,7 +295,7 @@ func step(v avfs.VFS, kind int, c call) {
 	res := sym.Outcome(func() { err = apply(v, c) })
 	sym.Assert(!res.Panicked, sig+"|panic|"+res.Class+"|"+res.Site)
 	if res.Panicked {
-		return
+		return false
 	}
 	sym.Observe("err", hx.Code(err))
 	after := wellFormed(v, sig+"|after")
@@ -303,10 +306,10 @@ func step(v avfs.VFS, kind int, c call) {
 			same = after[i].path == before[i].path && entry(v, after[i].fi, after[i].path) == snap[i]
 		}
 		sym.Assert(same, sig+"|failed-call-changed-the-tree")
-		return
+		return false
 	}
 	if err != nil {
-		return
+		return false
 	}
 	// a successful creating call leaves the new name in place (a renamed directory
 	// must not be detached from the tree)
@@ -349,6 +352,7 @@ func step(v avfs.VFS, kind int, c call) {
 			sym.Assert(entry(v, fi, n.path) == snap[i], sig+"|unrelated-entry-changed")
 		}
 	}
+	return true
 }
 
 // HInv: one call from seed tree s.
@@ -373,6 +377,19 @@ func HInv2(kind, s, op1, op2 int) {
 	}
 	hx.Seed(v, s)
 	sym.Reach("inv2")
-	step(v, kind, pick(Ops[op1], "a"))
+	// first call: operands range over the universe, scalars are fixed; only
+	// histories whose first call succeeds continue (a failed call leaves the tree
+	// as it was - asserted - so what follows it is covered by HInv)
+	c1 := pick(Ops[op1], "a")
+	c1.perm, c1.size, c1.flag, c1.data = 0o750, 1, 0x41, []byte("q")
+	if kind == hx.KOrefa && (c1.p == "/" || c1.q == "/") {
+		// OrefaFS cannot address its root (known finding, reported by HInv): a first
+		// call naming "/" corrupts the index and what follows would only echo it
+		return
+	}
+	if !stepErr(v, kind, c1) {
+		return
+	}
+	sym.Reach("inv2-second")
 	step(v, kind, pick(Ops[op2], "b"))
 }
